@@ -9,6 +9,7 @@
 
 import collections
 import itertools as it
+import math
 import operator
 import re
 import threading
@@ -943,11 +944,18 @@ def uniqueify(seq):
     return tuple(x for x in seq if x not in seen and not seen.add(x))
 
 
+NUMBER_TEXT_RE = re.compile(
+    r'\s*[+-]?(\d+\.?\d*|\.\d+)([eE][+-]?\d+)?\s*\Z', re.ASCII)
+
+
 def is_number(value):
+    if isinstance(value, str) and not NUMBER_TEXT_RE.match(value):
+        # text is a number when it is written like one, float() would
+        # also take nan, inf, 1_0 and the digits of other scripts
+        return False
     try:
-        float(value)
-        return True
-    except (ValueError, TypeError):
+        return math.isfinite(float(value))
+    except (ValueError, TypeError, OverflowError):
         return False
 
 
@@ -968,16 +976,16 @@ def coerce_to_number(value, convert_all=False):
     if convert_all and value.upper() in ('TRUE', 'FALSE', EMPTY):
         return int(len(value) == 4)
 
+    if not is_number(value):
+        return value
+
     try:
         if '.' not in value:
             return int(value)
     except (ValueError, TypeError):
         pass
 
-    try:
-        return float(value)
-    except (ValueError, TypeError):
-        return value
+    return float(value)
 
 
 def coerce_to_string(value):
